@@ -63,7 +63,17 @@ C01one(c, r, tag) == (IF r.outcome \in {"ok","err"} THEN <<>> ELSE <<Fail("C01",
 C01(c) == C01one(c, c.res, "") \o C01one(c, c.resdf, " (default field)")
           \o (IF S!Lossless(c.inp, S!Calls(c.a)) THEN <<>> ELSE <<Fail("C01", c, "the lexer does not terminate with a well-formed stream", "none")>>)
 
-Judge(c) == CASE Prop = "C16" -> C16(c) [] Prop = "C09" -> C09(c) [] Prop = "C01" -> C01(c)
+\* ---- C10 (byte level): all-or-nothing results of Parse and of both renderers on arbitrary byte strings -------
+Ok10(r) == r.outcome = "ok"
+PShape(r) == IF Ok10(r) THEN ~r.e_nil /\ r.err_nil /\ r.validate_ok ELSE r.outcome = "err" /\ r.e_nil /\ ~r.err_nil
+SShape(r) == ~HasObs(r) \/
+             /\ (r.obs.sql.out = "ok" => ~r.obs.sql.empty) /\ (r.obs.sql.out = "err" => r.obs.sql.empty)
+             /\ (r.obs.sqlp.out = "err" => r.obs.sqlp.empty)
+             /\ (~Ok10(r) => r.obs.sql.out = "err" /\ r.obs.sqlp.out = "err")
+C10(c) == (IF PShape(c.res) /\ PShape(c.resdf) THEN <<>> ELSE <<Fail("C10", c, "Parse result shape", "none")>>)
+       \o (IF SShape(c.res) /\ SShape(c.resdf) THEN <<>> ELSE <<Fail("C10", c, "renderer result shape (text returned together with an error, or empty text without one)", "none")>>)
+
+Judge(c) == CASE Prop = "C16" -> C16(c) [] Prop = "C09" -> C09(c) [] Prop = "C01" -> C01(c) [] Prop = "C10" -> C10(c)
 
 VARIABLES sh, n, last, fails, kfs, nfail, nkf, judged, nconf, drift
 vars == <<sh, n, last, fails, kfs, nfail, nkf, judged, nconf, drift>>
